@@ -363,7 +363,7 @@ def c_torch_prog(ctx, args):
     return None
 
 
-CHECKS = {'compose_independent': c_compose_independent, 'respecify': c_respecify, 'torch_prog': c_torch_prog, 'copy_extend': c_copy_extend, 'reuse': c_reuse, 'recompile': c_recompile, 'prog_corr': c_prog_corr, 'prog_seq': c_prog_seq, 'gate_corr': c_gate_corr, 'local': c_local}
+CHECKS = {'ctor_arg': __import__('props.C17', fromlist=['c_ctor_arg']).c_ctor_arg, 'compose_independent': c_compose_independent, 'respecify': c_respecify, 'torch_prog': c_torch_prog, 'copy_extend': c_copy_extend, 'reuse': c_reuse, 'recompile': c_recompile, 'prog_corr': c_prog_corr, 'prog_seq': c_prog_seq, 'gate_corr': c_gate_corr, 'local': c_local}
 
 
 def run(ctx):
@@ -382,6 +382,9 @@ def run(ctx):
     # history corpus: compile, add a gate that slides into an already compiled layer, compile again
     do(ctx, 'recompile', ['CliffordCircuit', 3, [[0, [[0], [0, [[1, 0], 0]]]]], [[0, [[2], [0, [[1, 1], 0]]]]], [[[0, 0, 0, 0, 1, 0], 2], [[0, 1, 0, 0, 0, 1], 1]], 2, 'take', 'forward'], nontrivial='rc0', sample=True)
     ctx.res.exhaustive = True
+    # a rotation gate does not keep hold of the Pauli object it was built from (the caller goes on evolving that object)
+    for it in range(int(24 * B)):
+        do(ctx, 'ctor_arg', [['np', 'torch'][it % 2], 'rotation_gate', rng.randint(1, 4), rng.randrange(10 ** 6)], nontrivial=('ca', it))
     for it in range(int(60 * B)):
         N = rng.randint(1, 4)
         pa = [] if it % 3 == 0 else rprog(rng, ctx.model, N, rng.randint(1, 3))          # a third of the receivers are EMPTY circuits
